@@ -4,7 +4,8 @@
    1 TRACE : procs frames fsb0 pfsb0 (obj fsb pfsb)* err fsbN pfsbN
              one complete scan; the two offsets read before the first Scan, after every Scan, and
              once more after Scan has returned false
-   2 STOPS : procs frames runs    run = k_lo k_hi fsb pfsb resumed rerr prev_resumed perr short
+   2 STOPS : procs frames runs    run = k_lo k_hi fsb pfsb fsb2 pfsb2 resumed rerr prev_resumed perr short
+             (fsb2 pfsb2: the two offsets read again after the scan was stopped: Close / cancel)
              for EVERY stop position k (0..all objects): scan k objects, read the offsets, Close,
              open a second scanner on data[fsb:] (and one on data[pfsb:]); equal observations of
              consecutive k are merged into runs
@@ -51,13 +52,15 @@ Definition oZ_is (m : option Z) (v : Z) : bool := match m with Some x => x =? v 
 Definition oL_is (m : option (list obj)) (l : list obj) : bool :=
   match m with Some x => objs_eqb x l | None => false end.
 
-Record stoprun := StopRun { s_lo : Z; s_hi : Z; s_fsb : Z; s_pfsb : Z; s_res : list obj; s_rerr : Z;
+Record stoprun := StopRun { s_lo : Z; s_hi : Z; s_fsb : Z; s_pfsb : Z; s_fsb2 : Z; s_pfsb2 : Z;
+                            s_res : list obj; s_rerr : Z;
                             s_pres : list obj; s_perr : Z; s_short : bool }.
 
 Definition pstoprun : P stoprun :=
-  lo <- pint ;; hi <- pint ;; fsb <- pint ;; pfsb <- pint ;; res <- pobjs ;; rerr <- pint ;;
+  lo <- pint ;; hi <- pint ;; fsb <- pint ;; pfsb <- pint ;; fsb2 <- pint ;; pfsb2 <- pint ;;
+  res <- pobjs ;; rerr <- pint ;;
   pres <- pobjs ;; perr <- pint ;; sh <- pbool ;;
-  ret (StopRun lo hi fsb pfsb res rerr pres perr sh).
+  ret (StopRun lo hi fsb pfsb fsb2 pfsb2 res rerr pres perr sh).
 
 Fixpoint stops_partition (next total : Z) (runs : list stoprun) : bool :=
   match runs with
@@ -71,11 +74,15 @@ Fixpoint stop_sweep (fs : list (frame obj)) (r : result obj) (all : list obj) (s
   match n with
   | O => (j1, j2)
   | S n' =>
+      (* Close and cancellation do not move the offsets (decoder.Close, Scan after cancel: no
+         block is taken): what is read after the stop is what was read before it *)
       let m := (fsb_after r k =? s_fsb s) && (pfsb_after r k =? s_pfsb s)
+               && (fsb_after r k =? s_fsb2 s) && (pfsb_after r k =? s_pfsb2 s)
                && res_eqb (resume_at fs (s_fsb s)) (s_res s) (s_rerr s)
                && res_eqb (resume_at fs (s_pfsb s)) (s_pres s) (s_perr s)
                && negb (s_short s) in
       let p := oZ_is (spec_fsb fs k) (s_fsb s) && oZ_is (spec_pfsb fs k) (s_pfsb s)
+               && oZ_is (spec_fsb fs k) (s_fsb2 s) && oZ_is (spec_pfsb fs k) (s_pfsb2 s)
                && oL_is (spec_resumed fs k) (s_res s) && (s_rerr s =? 0)
                && oL_is (spec_prev_resumed fs k) (s_pres s) && (s_perr s =? 0)
                && negb (s_short s)
